@@ -19,12 +19,14 @@ serializers = {
 }
 
 def dictify_complex_values(data: dict) -> dict:
+    data = dict(data)
     for key, value in data.items():
         if isinstance(value, complex):
             data[key] = {'real': value.real, 'imag': value.imag}
     return data
 
 def undictify_complex_values(data: dict) -> dict:
+    data = dict(data)
     for key, value in data.items():
         if isinstance(value, dict) and sorted(list(value.keys())) == sorted(['real', 'imag']):
             data[key] = complex(value['real'], value['imag'])
@@ -40,6 +42,7 @@ def undictify_complex_values(data: dict) -> dict:
     return data
 
 def dictify_all_complex_values(data: dict) -> dict:
+    data = dict(data)
     for key, value in data.items():
         if isinstance(value, dict):
             data[key] = dictify_all_complex_values(value)
@@ -48,6 +51,7 @@ def dictify_all_complex_values(data: dict) -> dict:
     return dictify_complex_values(data)
 
 def undictify_all_complex_values(data: dict) -> dict:
+    data = dict(data)
     for key, value in data.items():
         if isinstance(value, dict):
             data[key] = undictify_all_complex_values(value)
